@@ -215,7 +215,10 @@ fn cmd_replay(args: &[String]) {
                             }
                         }
                     }
-                    if let Some(w) = evw.as_mut().filter(|_| !fl["noev"].as_bool().unwrap_or(false)) {
+                    // (a case whose outcome no statement pins - empty scope - is not handed to the trace validator either:
+                    // the machine would pin through the event stream what the replay deliberately leaves open)
+                    let open_case = c.raw.get("sc").and_then(|x| x.as_array()).map(|a| a.is_empty()).unwrap_or(false);
+                    if let Some(w) = evw.as_mut().filter(|_| !fl["noev"].as_bool().unwrap_or(false) && !open_case) {
                         for e in run::events_aj(&o.events) {
                             writeln!(w, "{}", e).unwrap();
                         }
